@@ -18,6 +18,10 @@ enum Extra {
     Unknown,
     Dup(usize),
     NotifyReuse(usize),
+    /// the reply to call j carries protocol version 2: call j reports an error built from ITS OWN reply; the others are unaffected
+    BadVersion(usize),
+    /// a WebSocket Ping from the server before the reply at `pos` (WebSocketClient; ignored by the correlation)
+    Ping,
 }
 
 #[derive(Clone, Debug)]
@@ -186,6 +190,21 @@ fn scenarios(tier: Tier) -> Vec<Scenario> {
             v.push(Scenario::EarlyWs { k, queued_behind });
         }
     }
+    for kind in [Kind::Async, Kind::Ws] {
+        for n in 1..=3usize {
+            for perm in permutations(n) {
+                for j in 0..n {
+                    v.push(Scenario::Perm { kind, n, perm: perm.clone(), extra: Extra::BadVersion(j), pos: 0, burst: false });
+                    v.push(Scenario::Perm { kind, n, perm: perm.clone(), extra: Extra::BadVersion(j), pos: 0, burst: true });
+                }
+                if kind == Kind::Ws {
+                    for pos in 0..=n {
+                        v.push(Scenario::Perm { kind, n, perm: perm.clone(), extra: Extra::Ping, pos, burst: false });
+                    }
+                }
+            }
+        }
+    }
     for n in 1..=3usize {
         for perm in permutations(n) {
             for j in 0..n {
@@ -286,14 +305,33 @@ async fn run_perm_sub(kind: Kind, n: usize, perm: &[usize], extra: Extra, pos: u
                 consumed_by_notify = Some(tags[j]);
             }
         }
+        Extra::BadVersion(j) => {
+            for f in script.iter_mut().filter(|f| f.h.id == ids[&tags[j]]) {
+                f.h.version = 2;
+            }
+            flags |= 8192;
+        }
+        Extra::Ping => flags |= 8192,
     }
     if perm.windows(2).any(|w| w[0] > w[1]) {
         flags |= 1; // non-identity order
     }
-    for f in &script {
+    for (si, f) in script.iter().enumerate() {
+        if extra == Extra::Ping && si == pos {
+            if let Peer::Ws { ws, .. } = &mut peer {
+                use futures_util::SinkExt;
+                let _ = ws.send(tokio_tungstenite::tungstenite::Message::Ping(vec![1, 2, 3])).await;
+            }
+        }
         peer.send(f).await;
         if !burst {
             memstream::settle().await;
+        }
+    }
+    if extra == Extra::Ping && pos >= script.len() {
+        if let Peer::Ws { ws, .. } = &mut peer {
+            use futures_util::SinkExt;
+            let _ = ws.send(tokio_tungstenite::tungstenite::Message::Ping(vec![1, 2, 3])).await;
         }
     }
     memstream::settle().await;
@@ -301,7 +339,8 @@ async fn run_perm_sub(kind: Kind, n: usize, perm: &[usize], extra: Extra, pos: u
         let r = clients::join_call(h).await;
         let own = ids[&tags[i]];
         match (&r, consumed_by_notify) {
-            (Res::Id(got), _) if *got == own => {}
+            (Res::Err(_), _) if extra == Extra::BadVersion(i) => {}
+            (Res::Id(got), _) if *got == own && extra != Extra::BadVersion(i) => {}
             (Res::OkOther(_), Some(t)) if t == tags[i] => flags |= 2,
             _ => bad.push((
                 format!("C04:wrong-response:{}", match r { Res::Hang => "hang", Res::Id(_) => "other-calls-response", _ => "error" }),
@@ -622,6 +661,7 @@ fn run_perm_blocking(n: usize, perm: &[usize], extra: Extra, pos: usize, batch: 
     match extra {
         Extra::None => {}
         Extra::Unknown => script.insert(pos.min(script.len()), clients::reply(0xDEAD_BEEF)),
+        Extra::BadVersion(_) | Extra::Ping => {}
         Extra::Dup(j) => script.insert(pos.min(script.len()), clients::reply(ids[&tags[j]])),
         Extra::NotifyReuse(j) => {
             script.insert(pos.min(script.len()), clients::notify_frame(ids[&tags[j]], 7));
@@ -1040,7 +1080,7 @@ pub fn run(tier: Tier) -> ! {
                 }
             });
             *n += 1;
-            for bit in 0..13 {
+            for bit in 0..14 {
                 if flags & (1 << bit) != 0 {
                     *flagc.entry(bit).or_insert(0) += 1;
                 }
@@ -1067,7 +1107,7 @@ pub fn run(tier: Tier) -> ! {
         ctx.violation(k, w, json!({"scenario": format!("{:?}", all[i]), "index": i, "tier": tier.name()}));
     }
     let g = |b: u64| flagc.get(&b).copied().unwrap_or(0);
-    if !ctx.has_violation() && (g(0) == 0 || g(2) == 0 || g(3) == 0 || g(4) == 0 || g(5) == 0 || g(6) == 0 || g(9) == 0 || g(10) == 0 || g(11) == 0 || g(12) == 0) {
+    if !ctx.has_violation() && (g(0) == 0 || g(2) == 0 || g(3) == 0 || g(4) == 0 || g(5) == 0 || g(6) == 0 || g(9) == 0 || g(10) == 0 || g(11) == 0 || g(12) == 0 || g(13) == 0) {
         ctx.machinery("vacuous exploration: a scenario family never ran");
     }
     let coverage = json!({
@@ -1089,8 +1129,9 @@ pub fn run(tier: Tier) -> ! {
             "preempted_caller_refused_as_too_large": g(10),
             "notify_reusing_an_id_under_other_subscription_states": g(11),
             "websocket_client_early_reply_scenarios": g(12),
+            "bad_version_reply_or_ping_scenarios": g(13),
         },
-        "rule": "blocking Client over loopback TCP with n caller threads (n <= 4, thorough 5): every reply permutation x extra frame x position, and batch_json under every reply order; for both tokio clients over an in-memory stream on a paused single-threaded runtime: n concurrent calls, every permutation of the n replies, one extra frame (unknown id / duplicate of reply j / notify reusing in-flight id j) at every position, delivered one by one or in one burst; batch_json under every reply order; AsyncClient replies injected while the request's write is blocked after 48+k bytes, WebSocketClient replies injected while the request's WebSocket frame is blocked after k bytes (the peer unmasks the id from the partial frame); a caller (call or notify, on its own OS thread) parked inside its own call at body serialization while another call is issued and answered / left pending / timed out, then resumed (or refused locally as larger than the WebSocket client's assumed peer limit), then a third call, the pending ones answered in every order: request ids on the wire pairwise distinct and every call gets its own response; WebSocketClient: the notify reusing an in-flight id (n <= 3, every reply order, victim and position) with the subscription unsubscribed / its receiver dropped / re-subscribed / re-subscribed over a stale slot",
+        "rule": "blocking Client over loopback TCP with n caller threads (n <= 4, thorough 5): every reply permutation x extra frame x position, and batch_json under every reply order; for both tokio clients over an in-memory stream on a paused single-threaded runtime: n concurrent calls, every permutation of the n replies, one extra frame (unknown id / duplicate of reply j / notify reusing in-flight id j) at every position, delivered one by one or in one burst; batch_json under every reply order; AsyncClient replies injected while the request's write is blocked after 48+k bytes, WebSocketClient replies injected while the request's WebSocket frame is blocked after k bytes (the peer unmasks the id from the partial frame); n <= 3 calls with the reply to call j carrying protocol version 2 (call j reports an error, the others their own replies) and, WebSocketClient, a server Ping at every position; a caller (call or notify, on its own OS thread) parked inside its own call at body serialization while another call is issued and answered / left pending / timed out, then resumed (or refused locally as larger than the WebSocket client's assumed peer limit), then a third call, the pending ones answered in every order: request ids on the wire pairwise distinct and every call gets its own response; WebSocketClient: the notify reusing an in-flight id (n <= 3, every reply order, victim and position) with the subscription unsubscribed / its receiver dropped / re-subscribed / re-subscribed over a stale slot",
     });
     ctx.finish(
         "model_checking",
